@@ -448,7 +448,17 @@ func ruleEntry(w *World, r *Report, rule string) {
 			fi := w.MustFn(w.Godi, "(*"+owner+")."+m)
 			r.Analysed(fi)
 			con := fi.Name() + "#entry-check"
-			res := analyseEntry(w, fi, flag, sentinel, 2)
+			// a pure delegation (`return s.getService(t, k, keyed)`) is analysed in the function it delegates to
+			body := fi
+			for i := 0; i < 2; i++ {
+				t := pureDelegation(w, body)
+				if t == nil {
+					break
+				}
+				body = t
+				r.Analysed(t)
+			}
+			res := analyseEntry(w, body, flag, sentinel, 2)
 			bad := res.bad
 			if bad == "" && !res.sawTest {
 				bad = "the method never tests its own disposed flag"
@@ -460,6 +470,41 @@ func ruleEntry(w *World, r *Report, rule string) {
 			}
 		}
 	}
+}
+
+// pureDelegation: the body of fi is a single `return recv.helper(args…)` to an
+// unexported method of the same receiver (no other statement, no other call).
+func pureDelegation(w *World, fi *FuncInfo) *FuncInfo {
+	if fi.Decl.Recv == nil || len(fi.Decl.Recv.List[0].Names) != 1 || len(fi.Decl.Body.List) != 1 {
+		return nil
+	}
+	ret, ok := fi.Decl.Body.List[0].(*ast.ReturnStmt)
+	if !ok || len(ret.Results) != 1 {
+		return nil
+	}
+	c, ok := unparen(ret.Results[0]).(*ast.CallExpr)
+	if !ok {
+		return nil
+	}
+	info := fi.Pkg.TypesInfo
+	rcv, _, isM := methodCall(c)
+	if !isM || objOf(info, rcv) != info.Defs[fi.Decl.Recv.List[0].Names[0]] {
+		return nil
+	}
+	for _, a := range c.Args {
+		if len(callsIn(a, true)) > 0 {
+			return nil
+		}
+	}
+	cal := callee(info, c)
+	if cal == nil || cal.Exported() {
+		return nil
+	}
+	t := w.Decls[cal]
+	if t == nil || t.Pkg != fi.Pkg || t == fi {
+		return nil
+	}
+	return t
 }
 
 type entryResult struct {
